@@ -123,3 +123,63 @@ func nullBase(i int) *Case {
 	c.Ext = ld.Case{Files: files, ComposeFiles: []string{"proj/compose.yaml"}, WorkingDir: "proj", Opts: ld.Opts{SkipConsistencyCheck: true}}
 	return c
 }
+
+// dollarBase: the resolved definition of a base may contain `$` (from the `$$` escape, or from a
+// variable whose value holds one): it is inherited as it is, whether the base is in the same file
+// or in another one, and whatever the extending file's own interpolation does afterwards.
+func dollarBase(i int) *Case {
+	other := i%2 == 1
+	two := (i/2)%2 == 1 // web -> mid -> base
+	attrs := "    command: [\"echo\", \"$${TAG}\", \"$$HOME\"]\n    environment:\n      E: \"$$VAR and ${V}\"\n    labels:\n      l: \"${V}\"\n      m: \"cost $$5\"\n"
+	base := "  base:\n    image: img\n" + attrs
+	flat := "services:\n  web:\n    image: img\n" + attrs
+	env := map[string]string{"TAG": "1.0", "VAR": "x", "V": "pa$TAGss ${TAG}", "HOME": "/home/u"}
+	files := map[string]string{}
+	var main string
+	switch {
+	case other && two:
+		files["proj/lib/base.yml"] = "services:\n" + base
+		files["proj/mid.yml"] = "services:\n  mid:\n    extends: {file: lib/base.yml, service: base}\n"
+		main = "services:\n  web:\n    extends: {file: mid.yml, service: mid}\n"
+	case other:
+		files["proj/lib/base.yml"] = "services:\n" + base
+		main = "services:\n  web:\n    extends: {file: lib/base.yml, service: base}\n"
+	case two:
+		main = "services:\n" + base + "  mid:\n    extends: base\n  web:\n    extends: {service: mid}\n"
+		flat += "  mid:\n    image: img\n" + attrs + base
+	default:
+		main = "services:\n" + base + "  web:\n    extends: base\n"
+		flat += base
+	}
+	files["proj/compose.yaml"] = main
+	c := &Case{Kind: "equivalence", Service: "web", Shape: "dollar-in-base/" + map[bool]string{false: "same-file", true: "other-file"}[other], Chain: 1, Repeat: 3, Input: "a base whose resolved values contain `$`"}
+	if two {
+		c.Chain = 2
+	}
+	c.Flat = ld.Case{Files: map[string]string{"proj/compose.yaml": flat}, ComposeFiles: []string{"proj/compose.yaml"}, WorkingDir: "proj", Env: env}
+	c.Ext = ld.Case{Files: files, ComposeFiles: []string{"proj/compose.yaml"}, WorkingDir: "proj", Env: env}
+	return c
+}
+
+// labelledMain: the main file is given under a name that is relative (or a mere label), the project
+// directory is another directory, and a file of that very relative name there is what a service
+// extends: `extends.file` is relative to the project directory, it is not the main file.
+func labelledMain(i int) *Case {
+	variant := i % 3
+	deploy := "services:\n  web:\n    image: deploy-base\n    labels: {from: deploy}\n  base:\n    image: deploy-base\n    labels: {from: deploy}\n"
+	main := "services:\n  web:\n    extends: {file: compose.yaml, service: web}\n    hostname: h\n"
+	flat := "services:\n  web:\n    image: deploy-base\n    labels: {from: deploy}\n    hostname: h\n"
+	switch variant {
+	case 1: // base defined only by the other file
+		main = "services:\n  web:\n    extends: {file: compose.yaml, service: base}\n    hostname: h\n"
+	case 2: // main also defines a service of the base's name
+		main = "services:\n  web:\n    extends: {file: compose.yaml, service: base}\n    hostname: h\n  base:\n    image: main-base\n"
+		flat += "  base:\n    image: main-base\n"
+	}
+	c := &Case{Kind: "equivalence", Service: "web", Shape: "main-file-under-a-relative-name", Chain: 1, Repeat: 2, Input: "extends.file spelled like the (relative) name of the main file"}
+	// the main file lives in cfg/, is named by the relative text `compose.yaml` (ld joins it with the case root: see Ext below),
+	// the project directory is proj/, which holds another compose.yaml
+	c.Flat = ld.Case{Files: map[string]string{"proj/flat.yaml": flat}, ComposeFiles: []string{"proj/flat.yaml"}, WorkingDir: "proj"}
+	c.Ext = ld.Case{Files: map[string]string{"compose.yaml": main, "proj/compose.yaml": deploy}, ComposeFiles: []string{"compose.yaml"}, WorkingDir: "proj", Labels: true}
+	return c
+}
